@@ -93,7 +93,8 @@ def gen_task(rng, tree, scene, k, agent_only=False):
         if missing: del scene.files[src]
         tname = rng.choice(['', '', 'in_%d.dat' % scene.n, 'sub/in_%d.dat' % scene.n, 'deep/er/x%d' % scene.n])
         tgt_abs = os.path.join(tsbox, tname or os.path.basename(src))
-        if rng.random() < 0.15 and action != 'Tarball':
+        if rng.random() < 0.15:
+            # (also for TARBALL directives: the archive is unpacked on the agent side wherever its members point)
             tgt_abs = os.path.join(tree.psbox, 'staged', 'p%d.dat' % scene.n); tname = 'x'
         # the target in directory form (`in.dat > inputs/`): the source goes INTO that directory under its own name
         dirform = None
